@@ -24,6 +24,7 @@ func init() {
 		Rule: "cases: rt = deal a polynomial, pick shares by a selector list (subset/permutation/multiset with nil, nil-value and out-of-range entries), " +
 			"RecoverSecret+RecoverPriPoly+RecoverCommit (each called twice on the same objects, marshalled inputs compared before/after) +Check on the picks; EVERY subset of every 1<=t<=n<=8 on both groups (exhaustive space of the flag), sampled permutations with repeated indices and n up to 64; " +
 			"primitive ops eval/shares/priadd/priequal/primul/commit/pubeval/pubadd/pubequal/check/recsecret/recpoly/reccommit on equal and different lengths, cross-group, " +
+			"hist = a history of rt calls in ONE process (2..9 recoveries, n in 11..160, t in 2..7, index sequences in arrival order incl. pairs whose decimal digits concatenate identically, same and other group / polynomial in between), verdict after each call; " +
 			"secrets 0,1,q-1,random; non-trivial = every case except a plain in-order full-set recovery; distinct = distinct case line",
 		Gen:        gen,
 		Exec:       exec,
@@ -835,6 +836,8 @@ func exec(line string) (res h.Result) {
 		res.Class = "reccommit-" + strings.Fields(res.Impl)[0]
 	case "rt":
 		res = execRT(w)
+	case "hist":
+		res = execHist(w)
 	default:
 		panic("bad case line")
 	}
@@ -1031,6 +1034,143 @@ func execRT(w []string) (res h.Result) {
 	return
 }
 
+// hist <call>|<call>|…  with call = <poly>~<beta>~<n>~<selectors> (the arguments of an rt case):
+// a HISTORY of recoveries inside one process. Every call is a complete rt case (RecoverSecret,
+// RecoverPriPoly, RecoverCommit twice each, Check) with its own verdict, evaluated right after the
+// call: a recovery is a function of its arguments only, so call k of a history must answer what it
+// answers alone – whatever index sequences, groups and thresholds the earlier calls used (a memo
+// table keyed ambiguously, a pooled scratch scalar, a cached denominator show up here and only here).
+func execHist(w []string) (res h.Result) {
+	calls := strings.Split(w[1], "|")
+	var outs []string
+	for k, c := range calls {
+		f := strings.Split(c, "~")
+		if len(f) != 4 {
+			panic("bad case line: hist call is not poly~beta~n~selectors")
+		}
+		r := execRT([]string{"rt", f[0], f[1], f[2], f[3]})
+		outs = append(outs, r.Impl)
+		if r.Oracle != "" && res.Oracle == "" {
+			sig, detail := r.Oracle, ""
+			if j := strings.Index(r.Oracle, ":"); j >= 0 {
+				sig, detail = r.Oracle[:j], r.Oracle[j+1:]
+			}
+			res.Oracle = fmt.Sprintf("%s: call %d of %d of a history (%s over %s):%s", sig, k+1, len(calls), f[0][:2], f[3], detail)
+		}
+	}
+	res.Impl = strings.Join(outs, " | ")
+	res.Class = fmt.Sprintf("hist-%d", len(calls))
+	res.Nontrivial = true
+	return
+}
+
+// digit-colliding index lists: a list A of t distinct indices < n and a DIFFERENT list B of t distinct
+// indices < n whose decimal digits concatenate to the same string ((1,12) / (11,2), (1,2,13) / (12,1,3))
+func collidingLists(rng *h.Rng, t, n int) (a, b []int, ok bool) {
+	for try := 0; try < 200; try++ {
+		a = rng.Perm(n)[:t]
+		str := ""
+		for _, i := range a {
+			str += strconv.Itoa(i)
+		}
+		var all [][]int
+		var rec func(pos int, cur []int)
+		rec = func(pos int, cur []int) {
+			if len(all) > 64 {
+				return
+			}
+			if len(cur) == t {
+				if pos == len(str) {
+					all = append(all, append([]int{}, cur...))
+				}
+				return
+			}
+			for l := 1; l <= 3 && pos+l <= len(str); l++ {
+				tok := str[pos : pos+l]
+				if l > 1 && tok[0] == '0' {
+					break
+				}
+				v, _ := strconv.Atoi(tok)
+				dup := v >= n
+				for _, c := range cur {
+					dup = dup || c == v
+				}
+				if !dup {
+					rec(pos+l, append(cur, v))
+				}
+			}
+		}
+		rec(0, nil)
+		var others [][]int
+		for _, c := range all {
+			same := true
+			for k := range c {
+				same = same && c[k] == a[k]
+			}
+			if !same {
+				others = append(others, c)
+			}
+		}
+		if len(others) > 0 {
+			return a, others[rng.Intn(len(others))], true
+		}
+	}
+	return nil, nil, false
+}
+
+// one history line: recoveries over colliding and random index sequences, n > 10, same and other groups
+func history(rng *h.Rng, gs []*grp, k int) string {
+	g := gs[k%2]
+	o := gs[(k+1)%2]
+	n := 11 + rng.Intn(30)
+	if k%5 == 4 {
+		n = 101 + rng.Intn(60) // three-digit indices
+	}
+	t := 2 + rng.Intn(3)
+	if k%7 == 6 {
+		t = 5 + rng.Intn(3)
+	}
+	c := randPoly(g, rng, t, rng.Intn(8))
+	beta := big.NewInt(1)
+	if rng.Intn(2) == 0 {
+		beta = rng.Big(g.q)
+	}
+	call := func(g *grp, c []*big.Int, beta *big.Int, n int, sel []int) string {
+		return fmt.Sprintf("%s~%s~%d~%s", polyLit(g, c), beta, n, joinInts(sel))
+	}
+	var calls []string
+	a, b, ok := collidingLists(rng, t, n)
+	if !ok {
+		a, b = rng.Perm(n)[:t], rng.Perm(n)[:t]
+	}
+	switch k % 4 {
+	case 0: // A then B, same polynomial
+		calls = []string{call(g, c, beta, n, a), call(g, c, beta, n, b)}
+	case 1: // B then A, with a call on the other group and one on another polynomial of this group in between
+		c2 := randPoly(g, rng, t, rng.Intn(8))
+		co := randPoly(o, rng, t, rng.Intn(8))
+		calls = []string{call(g, c, beta, n, b), call(o, co, big.NewInt(1), n, a), call(g, c2, beta, n, b), call(g, c, beta, n, a)}
+	case 2: // A, A again, B, and B extended by further shares (another length)
+		ext := append(append([]int{}, b...), rng.Perm(n)[:2]...)
+		calls = []string{call(g, c, beta, n, a), call(g, c, beta, n, a), call(g, c, beta, n, b), call(g, c, beta, n, ext)}
+	case 3: // a longer random history: 5..8 calls, random subsets in arrival order, two polynomials
+		c2 := randPoly(g, rng, t, rng.Intn(8))
+		calls = []string{call(g, c, beta, n, a)}
+		for j := 4 + rng.Intn(4); j > 0; j-- {
+			cc := c
+			if rng.Bool() {
+				cc = c2
+			}
+			sel := rng.Perm(n)[:t+rng.Intn(2)]
+			if j%3 == 0 {
+				sel = b
+			}
+			calls = append(calls, call(g, cc, beta, n, sel))
+		}
+	}
+	return "hist " + strings.Join(calls, "|")
+}
+
 // ---------------------------------------------------------------------------------------------
 // generation
 
@@ -1173,6 +1313,16 @@ func gen(tier string, rng *h.Rng, emit func(string)) {
 			beta = rng.Big(g.q)
 		}
 		emit(fmt.Sprintf("rt %s %s %d %s", polyLit(g, c), beta, n, s))
+	}
+
+	// 2b. HISTORIES: several recoveries in one process over different index sequences (n > 10, arrival
+	// order, index lists whose decimal digits concatenate identically, same and other groups)
+	nhist := 80
+	if thorough {
+		nhist = 1200
+	}
+	for k := 0; k < nhist; k++ {
+		emit(history(rng, gs, k))
 	}
 
 	// 3. primitives
